@@ -404,6 +404,9 @@ def stateCore (focus : String) (c : Case) : Acc × String := Id.run do
                 for k in [0:p] do
                   if let some (some dk) := step.tables.d[k]? then
                     let Dk := FMat.ofMat (wmul w (dk.toMat n m))
+                    -- a derivative the model itself reports as non-finite (overflow inside the user's
+                    -- function) determines no Jacobian column: nothing to check for this k
+                    if !Dk.allFinite then continue
                     let X := Dk.mul ci
                     -- (1 − U Uᵀ) X without forming the N×N projector
                     let expect := X.sub (Uf.mul (Uft.mul X))
